@@ -6,6 +6,121 @@ import WS.Lemmas.Url
 namespace WS.Props.C18
 open WS WS.Py WS.Net
 open WS.Model.OpenSocket
+open WS.Lemmas.Url
+
+/-! ### the URL -/
+
+/-- generated fact (T): the default ports in `parse_url`. -/
+theorem default_ports : Gen.defaultPortWs = 80 ∧ Gen.defaultPortWss = 443 := by decide
+
+/-- **C18_parse** — for every string the Spec's grammar accepts as a ws/wss URL (any host form,
+    any port 1…65535 or none, any path, query, user-info, fragment; any IP-literal
+    recogniser), `parse_url` returns exactly the Spec's target: lower-cased host without
+    brackets, explicit port or 80/443, path-or-"/" plus "?"query, TLS flag iff wss. -/
+theorem C18_parse (v6ok : Str → Bool) (u : Str) (t : Target)
+    (h : Spec.Url.classify v6ok u = .target t) : Model.Url.parseUrl v6ok u = .ok t := by
+  unfold Spec.Url.classify at h
+  split at h
+  · cases h
+  next hcon =>
+  have hc : ':' ∈ u := by simpa using hcon
+  dsimp only at h
+  split at h
+  · cases h
+  next hsch =>
+  split at h
+  · next body hr =>
+    rw [parseUrl_hier v6ok u body hc hr, ← isDelim_eq]
+    simp only [Bool.not_eq_true', Bool.not_eq_false, Bool.or_eq_true] at hsch
+    rcases hsch with hws | hwss
+    · have e : u.takeWhile (· != ':') = "ws".toList := by simpa [Spec.Url.isWs] using hws
+      have hh := hier_target v6ok _ _ _ t h
+      rw [e] at hh ⊢
+      simpa [Spec.Url.isWss, default_ports.1] using hh
+    · have e : u.takeWhile (· != ':') = "wss".toList := by simpa [Spec.Url.isWss] using hwss
+      have hh := hier_target v6ok _ _ _ t h
+      rw [e] at hh ⊢
+      simpa [Spec.Url.isWss, default_ports.2] using hh
+  · cases h
+
+/-- **C18_reject** — no ":" at all, a scheme other than ws/wss, no "//" after the scheme, or an
+    authority without a host: `parse_url` raises ValueError.  (`C18_no_network` below: nothing
+    has touched the resolver or a socket at that point.) -/
+theorem C18_reject (v6ok : Str → Bool) (u : Str)
+    (h : Spec.Url.classify v6ok u = .refuse) : Model.Url.parseUrl v6ok u = .error .valueError := by
+  unfold Spec.Url.classify at h
+  split at h
+  · next hcon =>
+    unfold Model.Url.parseUrl
+    simp only [hcon, if_true]
+  next hcon =>
+  have hc : ':' ∈ u := by simpa using hcon
+  dsimp only at h
+  split at h
+  · next hsch =>
+    simp only [Bool.not_eq_true', Bool.or_eq_false_iff, Spec.Url.isWs, Spec.Url.isWss] at hsch
+    by_cases hp : ("//".toList).isPrefixOf ((u.dropWhile (· != ':')).drop 1) = true
+    · match hr : (u.dropWhile (· != ':')).drop 1, hp with
+      | [], hp => simp [List.isPrefixOf] at hp
+      | [c], hp => simp [List.isPrefixOf] at hp
+      | c :: d :: body, hp =>
+        simp at hp
+        obtain ⟨rfl, rfl⟩ := hp
+        rw [parseUrl_hier v6ok u body hc hr]
+        simp only [hsch.1, hsch.2, if_false, Bool.false_eq_true]
+    · exact parseUrl_noslashes v6ok u ((Bool.not_eq_true _).mp hp)
+  next hsch =>
+  split at h
+  · next body hr =>
+    rw [parseUrl_hier v6ok u body hc hr, ← isDelim_eq]
+    have := hier_refuse v6ok _ Gen.defaultPortWs _ _ h
+    have := hier_refuse v6ok _ Gen.defaultPortWss _ _ h
+    split
+    · simp_all [Spec.Url.isWss]
+    · split
+      · simp_all [Spec.Url.isWss]
+      · rfl
+  · next hno => exact parseUrl_noslashes v6ok u (prefix_slashes _ hno)
+
+/-- **C18_total** — whatever the string, `parse_url` either returns a target or raises
+    ValueError: no other exception, no internal error. -/
+theorem C18_total (v6ok : Str → Bool) (u : Str) (e : Exn)
+    (h : Model.Url.parseUrl v6ok u = .error e) : e = .valueError := by
+  by_cases hc : ':' ∈ u
+  · by_cases hp : ("//".toList).isPrefixOf ((u.dropWhile (· != ':')).drop 1) = true
+    · have key : ∀ body, (u.dropWhile (· != ':')).drop 1 = '/' :: '/' :: body → e = .valueError := by
+        intro body hr
+        rw [parseUrl_hier v6ok u body hc hr] at h
+        split at h
+        · exact parseHier_error _ _ _ _ _ _ h
+        · split at h
+          · exact parseHier_error _ _ _ _ _ _ h
+          · cases h; rfl
+      match hr : (u.dropWhile (· != ':')).drop 1, hp with
+      | [], hp => simp [List.isPrefixOf] at hp
+      | [c], hp => simp [List.isPrefixOf] at hp
+      | c :: d :: body, hp =>
+        simp at hp
+        obtain ⟨rfl, rfl⟩ := hp
+        exact key body hr
+    · rw [parseUrl_noslashes v6ok u ((Bool.not_eq_true _).mp hp)] at h
+      cases h; rfl
+  · unfold Model.Url.parseUrl at h
+    have hcon : u.contains ':' = false := by simpa using hc
+    simp only [hcon, Bool.not_false, if_true] at h
+    cases h; rfl
+
+/-- non-vacuity: the grammar accepts the usual forms, refuses the malformed ones, and the
+    `;params` case keeps its parameters (F14 repaired). -/
+example :
+    Spec.Url.classify Model.Url.bracketOk "wss://u:p@Ex.Com:8443/a;b/c?d=1#f".toList =
+      .target ⟨"ex.com".toList, 8443, "/a;b/c?d=1".toList, true⟩ ∧
+    Spec.Url.classify Model.Url.bracketOk "ws://[::1]?q".toList =
+      .target ⟨"::1".toList, 80, "/?q".toList, false⟩ ∧
+    Spec.Url.classify Model.Url.bracketOk "ws:abc://h/".toList = .refuse ∧
+    Spec.Url.classify Model.Url.bracketOk "http://h/".toList = .refuse ∧
+    Spec.Url.classify Model.Url.bracketOk "ws://:80/".toList = .refuse ∧
+    Spec.Url.classify Model.Url.bracketOk "ws://h:0/".toList = .unconstrained := by decide
 
 /-! ### the address loop -/
 
